@@ -189,6 +189,7 @@ def unwrap(obs):
 def stream_docs(ctx, acc, fmt, n, gen, code, args_of, opts_of, nontriv):
     docs = [gen(ctx.rng) for _ in range(n)]
     outs = oracle_batch([(code, args_of(d)) for d in docs])
+    trimmed = []
     for d, o in zip(docs, outs):
         text, model, expected, dom = o[0], model_times(o[1]), o[2], all(x == 1 for x in o[3:])
         obs = read_with(fmt, text, opts_of(d))
@@ -206,6 +207,17 @@ def stream_docs(ctx, acc, fmt, n, gen, code, args_of, opts_of, nontriv):
         acc.add(fmt, rec, expected, obs, model, dom)
         if dom:
             acc.res["nontrivial"] |= {(fmt,) + tuple(k) for k in nontriv(d)}
+            if ctx.rng.random() < 0.3:
+                trimmed.append((d, text.rstrip("\r\n"), expected))
+    # the same documents without the final line terminator / trailing blank lines (outside the renderer, hence outside
+    # the document theorems; well-formed all the same)
+    raw_code = {"srt": 109, "mdvd": 110, "vtt": 113}[fmt]
+    margs = [(raw_code, [d[0], d[1], t2] if fmt == "vtt" else t2) for (d, t2, e) in trimmed]
+    for (d, t2, expected), m in zip(trimmed, oracle_batch(margs) if margs else []):
+        obs = read_with(fmt, t2, opts_of(d))
+        rec = {"input": plain(d), "document": t2, "opts": plain(opts_of(d))}
+        acc.add(fmt, rec, expected, obs, model_times(m), True)
+        acc.res["distribution"][fmt + "_without_final_newline"] = acc.res["distribution"].get(fmt + "_without_final_newline", 0) + 1
     if docs:
         acc.res["samples"].append({"format": fmt, "input": plain(docs[0]), "document": outs[0][0], "expected": outs[0][2]})
     acc.flush()
